@@ -17,21 +17,46 @@ from sx import Sym
 
 RULE = ("(a) seeded valid blocks of nine types: real _write bytes vs model enc (byte-identical), and the real decoder on "
         "model-encoded bytes; (b) table entries and file headers over boundary field values: TdfEntry._write vs Entry.enc, "
-        "TdfEntry._build / Tdf.__enter__ vs Entry.dec / Header.dec, Tdf.new vs newFile; (c) the BTS capture (pinned sha-256): "
+        "TdfEntry._build / Tdf.__enter__ vs Entry.dec / Header.dec, Tdf.new vs newFile, each under four process time zones (UTC, CET/CEST, "
+        "Newfoundland -3:30, New Zealand +12: the stored i32 is epoch seconds whatever the zone); (c) the BTS capture (pinned sha-256): "
         "table and all 8 blocks decoded by real code and model compared in full, re-encoding equal at every care position. "
         "non-trivial as C01 / entries with non-default fields; capture checks are tests on one input and labelled as such")
 ASSUMPTIONS = ["the only ground truth outside the code available offline is the capture (8 of 9 block types; no events block, no BTS-format cameras)"]
 PIN_FILE = os.path.join(os.path.dirname(os.path.abspath(__file__)), "capture.sha256")
 
 
-def entries_and_headers(ctx):
+TZS = ["UTC0", "CET-1CEST,M3.5.0,M10.5.0/3", "NST3:30NDT,M3.2.0,M11.1.0", "NZST-12NZDT,M9.5.0,M4.1.0/3"]
+
+
+class local_tz:
+    """the on-disk dates are epoch seconds whatever the process's time zone; run a step under a POSIX TZ rule"""
+
+    def __init__(self, tz):
+        self.tz = tz
+
+    def __enter__(self):
+        import time
+        self.old = os.environ.get("TZ")
+        os.environ["TZ"] = self.tz
+        time.tzset()
+
+    def __exit__(self, *a):
+        import time
+        if self.old is None:
+            os.environ.pop("TZ", None)
+        else:
+            os.environ["TZ"] = self.old
+        time.tzset()
+
+
+def entries_and_headers(ctx, tz="UTC0", share=1):
     from datetime import datetime
 
     from basictdf.basictdf import TdfEntry
     from basictdf.tdfBlock import BlockType
     rng = ctx.rng
     cases = []
-    for _ in range(ctx.n(300, 6000)):
+    for _ in range(max(40, ctx.n(300, 6000) // share)):
         typ = rng.randrange(0, 17)
         fmt = rng.choice([0, 1, 2, 7, 2 ** 32 - 1, rng.randrange(2 ** 32)])
         off = rng.choice([0, 4096, 2 ** 31 - 1, rng.randrange(2 ** 31)])
@@ -42,8 +67,8 @@ def entries_and_headers(ctx):
     replies = common.drv_batch([[Sym("entry.enc"), [t, f, o, s, d[0], d[1], d[2], cm]] for t, f, o, s, d, cm in cases])
     dec_cmds = []
     for (t, f, o, s, d, cm), m in zip(cases, replies):
-        rep = dict(entry=[t, f, o, s, d, cm])
-        ctx.case(("entry", t, f, o, s, tuple(d), tuple(cm)), nontrivial=True, tags=("entry",),
+        rep = dict(entry=[t, f, o, s, d, cm], tz=tz)
+        ctx.case(("entry", tz, t, f, o, s, tuple(d), tuple(cm)), nontrivial=True, tags=("entry", "tz=" + tz.split(",")[0]),
                  sample=dict(entry=dict(type=t, format=f, offset=o, size=s, dates=d, comment_len=len(cm))))
         buf = io.BytesIO()
         try:
@@ -88,10 +113,10 @@ def entries_and_headers(ctx):
             Tdf.new(p)
             real = open(p, "rb").read()
             model = common.drv_batch([[Sym("file.new"), now]])[0]
-            ctx.case(("new", now), nontrivial=True, tags=("Tdf.new",))
+            ctx.case(("new", tz, now), nontrivial=True, tags=("Tdf.new",))
             if real != model:
                 i = next((i for i, (a, b) in enumerate(zip(real, model)) if a != b), min(len(real), len(model)))
-                ctx.fail(f"Tdf.new writes bytes that differ from the layout at byte {i} (lengths {len(real)}/{len(model)})", dict(new=now), ident="Tdf.new layout")
+                ctx.fail(f"Tdf.new writes bytes that differ from the layout at byte {i} (lengths {len(real)}/{len(model)})", dict(new=now, tz=tz), ident="Tdf.new layout")
             # header fields through __enter__ on layout-conformant headers with junk in the reserved words
             hdr = bytearray(real)
             version, n = rng.choice([1, 2, 2 ** 32 - 1]), 14
@@ -108,7 +133,7 @@ def entries_and_headers(ctx):
                 ctx.fail(f"layout-conformant header cannot be opened: {type(ex).__name__}: {ex}", dict(header=bytes(hdr[:64]).hex()), ident="header read raises")
                 continue
             if got != (version, n, dts[0], dts[1], dts[2]):
-                ctx.fail(f"header fields read {got}, encoded {(version, n, dts)}", dict(header=bytes(hdr[:64]).hex()), ident="header read values")
+                ctx.fail(f"header fields read {got}, encoded {(version, n, dts)}", dict(header=bytes(hdr[:64]).hex(), tz=tz), ident="header read values")
             mh = common.drv_batch([[Sym("header.dec"), bytes(hdr[:64])]])[0]
             if mh[0] != "ok" or tuple(mh[1]) != got:
                 ctx.diff("header.dec", f"model header {mh} real {got}", dict(header=bytes(hdr[:64]).hex()))
@@ -163,6 +188,19 @@ def capture_all(ctx):
             ctx.fail(f"capture block {kind}: re-encoding differs from the BTS bytes at positions the layout defines", rep, ident=f"capture {kind} reencode")
 
 
+def capture_table_dates(ctx, tz):
+    """the 45 dates of the BTS capture read by the library under another time zone are the same instants"""
+    from basictdf import Tdf
+    tbl = capture.parse_table(capture.raw())
+    ctx.case(("capture", "table", tz), nontrivial=True, tags=("capture", "tz=" + tz.split(",")[0]))
+    with Tdf(capture.PATH) as t:
+        got = [(C.ts(e.creation_date), C.ts(e.last_modification_date), C.ts(e.last_access_date)) for e in t.entries]
+    want = [(e["cdate"], e["mdate"], e["adate"]) for e in tbl["entries"]]
+    if got != want:
+        ctx.fail(f"under TZ={tz} the library reads different instants from the capture's jump table than the epoch seconds stored there",
+                 dict(capture="table", tz=tz), ident="capture table dates (time zone)")
+
+
 def run(ctx):
     n = ctx.n(900, 30000)
     cases = B.gen_cases(ctx, n, big=ctx.thorough)
@@ -192,8 +230,12 @@ def run(ctx):
             ctx.fail(f"{kind}: the library extracts different values (or consumes {tell} of {len(m['enc'])} bytes) from layout-conformant bytes", rep, ident=f"{kind} layout (read)")
         if m["dec_abs"] != got:
             ctx.diff("blk.dec", f"{kind}: model decode differs from real decode", rep)
-    entries_and_headers(ctx)
+    for tz in TZS:
+        with local_tz(tz):
+            entries_and_headers(ctx, tz, share=len(TZS))
     capture_all(ctx)
+    with local_tz(TZS[1]):
+        capture_table_dates(ctx, TZS[1])
 
 
 def replay(path):
